@@ -432,14 +432,17 @@ def lowerPatValsE (cx : LCtx) (sc : Scopes) : Ty → List Expr → Option (Ty ×
       | .some (.var x), .optional it => (lowerPatValsE cx sc st vs).map (fun (s, out, bs) => (s, v :: out, (x, it) :: bs))
       | _, _ => Option.none
 
+/-- one arm's pattern: refined scrutinee type, lowered pattern, bindings -/
+def lowerPat (cx : LCtx) (sc : Scopes) : Ty → Pat → Option (Ty × Pat × List (Nat × Ty))
+  | st, .default => Option.some (st, Pat.default, [])
+  | st, .values vs => (lowerPatValsE cx sc st vs).map (fun (s, vs', bs) => (s, Pat.values vs', bs))
+
 /-- arms of a match expression, one pass: the arm's patterns refine the scrutinee type, its
 bindings are added to a fresh scope, the body is lowered and unified with the other arms -/
 def lowerArmsE (cx : LCtx) (sc : Scopes) : Ty → Option Ty → List (Pat × Expr) → Option (Ty × Option Ty × List (Pat × Expr))
   | st, ty, [] => Option.some (st, ty, [])
   | st, ty, (pat, body) :: rest =>
-    match (match pat with
-      | .default => Option.some (st, Pat.default, ([] : List (Nat × Ty)))
-      | .values vs => (lowerPatValsE cx sc st vs).map (fun (s, vs', bs) => (s, Pat.values vs', bs))) with
+    match lowerPat cx sc st pat with
     | Option.none => Option.none
     | Option.some (st', pat', bs) =>
       match bs.foldl (fun acc (b : Nat × Ty) => acc.bind (fun s => scopeAdd cx s b.1 b.2)) (Option.some ([] :: sc)) with
@@ -456,9 +459,7 @@ def lowerArmsE (cx : LCtx) (sc : Scopes) : Ty → Option Ty → List (Pat × Exp
 def lowerArmsS (cx : LCtx) (sc : Scopes) : Ty → List (Pat × List Stmt) → Option (Ty × List (Pat × List Stmt))
   | st, [] => Option.some (st, [])
   | st, (pat, body) :: rest =>
-    match (match pat with
-      | .default => Option.some (st, Pat.default, ([] : List (Nat × Ty)))
-      | .values vs => (lowerPatValsE cx sc st vs).map (fun (s, vs', bs) => (s, Pat.values vs', bs))) with
+    match lowerPat cx sc st pat with
     | Option.none => Option.none
     | Option.some (st', pat', bs) =>
       match bs.foldl (fun acc (b : Nat × Ty) => acc.bind (fun s => scopeAdd cx s b.1 b.2)) (Option.some ([] :: sc)) with
